@@ -702,8 +702,12 @@ def fam_auto(rng, n, thorough=False):
     # bound of the node), then the first sender again: no second burst for it
     t = Tags(89800)
     items = [{"ep": 0, "item": {"kind": "hb", "tag": t.next(), "sys": 1 + s % 250, "comp": 2 + s // 250, "autopilot": 3}} for s in range(1100)]
-    steps = opens(1) + [feed(0, "hb", t.next(), sys=1, comp=1, autopilot=3), {"op": "sleep", "ms": 50}, {"op": "burst", "items": items},
-                        {"op": "quiesce", "ms": 1500}, feed(0, "hb", t.next(), sys=1, comp=1, autopilot=3), {"op": "sleep", "ms": 100},
+    # 8 senders (56 requests) at a time, then the wire is given time to drain: the channel's queue holds 64 items and a
+    # burst beyond it is allowed to lose requests (C13)
+    steps = opens(1) + [feed(0, "hb", t.next(), sys=1, comp=1, autopilot=3), {"op": "sleep", "ms": 50}]
+    for c0 in range(0, len(items), 8):
+        steps += [{"op": "burst", "items": items[c0:c0 + 8]}, {"op": "quiesce", "ms": 2000}]
+    steps += [{"op": "quiesce", "ms": 1500}, feed(0, "hb", t.next(), sys=1, comp=1, autopilot=3), {"op": "sleep", "ms": 100},
                         feed(0, "hb", t.next(), sys=7, comp=3, autopilot=3), {"op": "quiesce", "ms": 800}]
     out.append({"name": "auto/sr_many_senders", "conf": conf(sr_enable=True), "endpoints": customs(1), "steps": steps})
     # stream requests: histories of heartbeats from many sources interleaved with other traffic
